@@ -7,7 +7,7 @@
     HLCTimestamp -> triple, optional timestamp -> option pair), IS the model
     function the C18 theorems are about.  They are re-checked on every run
     against the file regenerated from the current source. *)
-From HS Require Import Base.Prelude Base.PyLib C18.Model Gen.ClocksGen.
+From HS Require Import Base.Prelude Base.PyLib C18.Model C18.Causal Gen.ClocksGen.
 Local Open Scope Z_scope.
 
 (* ------------------------------------------------------------------ *)
@@ -351,4 +351,80 @@ Lemma tie_pn_value c :
 Proof.
   intros Wp Wn. unfold PNCounter_value, PNCounter_increments, PNCounter_decrements, pn_abs; cbn [fst snd].
   rewrite (tie_gc_value _ Wp), (tie_gc_value _ Wn). repeat split.
+Qed.
+
+(* ------------------------------------------------------------------ *)
+(** * VectorClock.happened_before (logical_clocks.py): a loop with [break] over the
+      union of the two key sets.  Python iterates a set in an arbitrary order: the
+      translation takes the iteration order as a parameter, and the tie holds for
+      EVERY order that enumerates the generated element list. *)
+Section HBLoop.
+  Variables f g : Z -> Z.
+  Variable F : bool * bool * bool -> Z -> bool * bool * bool.
+  Hypothesis HF : forall leq lt x,
+    F (leq, lt, true) x = (leq, lt, true) /\
+    F (leq, lt, false) x = if f x >? g x then (false, lt, true)
+                           else if f x <? g x then (leq, true, false) else (leq, lt, false).
+
+  Lemma hb_loop_broken l leq lt : fold_left F l (leq, lt, true) = (leq, lt, true).
+  Proof. induction l as [|x l IH]; cbn [fold_left]; [reflexivity|]. rewrite (proj1 (HF leq lt x)). apply IH. Qed.
+
+  Lemma hb_loop l lt0 :
+    let '(leq', lt', _) := fold_left F l (true, lt0, false) in
+    (leq' = true <-> (forall x, In x l -> f x <= g x)) /\
+    ((forall x, In x l -> f x <= g x) -> (lt' = true <-> lt0 = true \/ exists x, In x l /\ f x < g x)).
+  Proof.
+    revert lt0; induction l as [|x l IH]; intros lt0; cbn [fold_left].
+    - split; [split; [intros _ y []|reflexivity]|]. intros _. split; [intros H; left; exact H|intros [H|[y [[] _]]]; exact H].
+    - rewrite (proj2 (HF true lt0 x)).
+      destruct (f x >? g x) eqn:E1.
+      + rewrite hb_loop_broken. split.
+        * split; [discriminate|]. intros H. specialize (H x (or_introl eq_refl)). lia.
+        * intros H. specialize (H x (or_introl eq_refl)). lia.
+      + destruct (f x <? g x) eqn:E2.
+        * specialize (IH true). destruct (fold_left F l (true, true, false)) as [[leq' lt'] b']. destruct IH as [I1 I2]. split.
+          -- rewrite I1. split; [intros H y [->|Hy]; [lia|apply H, Hy]|intros H y Hy; apply H; right; exact Hy].
+          -- intros H. rewrite (I2 (fun y Hy => H y (or_intror Hy))). split; [intros _|intros _; left; reflexivity].
+             right. exists x. split; [left; reflexivity|lia].
+        * specialize (IH lt0). destruct (fold_left F l (true, lt0, false)) as [[leq' lt'] b']. destruct IH as [I1 I2]. split.
+          -- rewrite I1. split; [intros H y [->|Hy]; [lia|apply H, Hy]|intros H y Hy; apply H; right; exact Hy].
+          -- intros H. rewrite (I2 (fun y Hy => H y (or_intror Hy))). split.
+             ++ intros [H0|[y [Hy Hlt]]]; [left; exact H0|right; exists y; split; [right; exact Hy|exact Hlt]].
+             ++ intros [H0|[y [[->|Hy] Hlt]]]; [left; exact H0|lia|right; exists y; split; assumption].
+  Qed.
+End HBLoop.
+
+Lemma dfun_notin d k : ~ In k (map fst d) -> dfun d k = 0.
+Proof.
+  intros H. unfold dfun. apply dget_not_mem. destruct (dmem d k) eqn:E; [|reflexivity].
+  exfalso. apply H. clear H. induction d as [|[k' v'] r IH]; cbn in *; [discriminate|].
+  apply orb_true_iff in E as [E|E]; [left; lia|right; exact (IH E)].
+Qed.
+
+Lemma tie_vc_happened_before a b order :
+  (forall k, In k order <-> In k (VectorClock_happened_before_setiter_elems a b)) ->
+  (VectorClock_happened_before a b order = true <-> vc_lt (dfun (VectorClock__vector a)) (dfun (VectorClock__vector b))).
+Proof.
+  intros Hord. unfold VectorClock_happened_before. cbn zeta.
+  match goal with |- context [fold_left ?F0 order _] => set (F := F0) end.
+  assert (HF : forall leq lt x,
+    F (leq, lt, true) x = (leq, lt, true) /\
+    F (leq, lt, false) x = if dfun (VectorClock__vector a) x >? dfun (VectorClock__vector b) x then (false, lt, true)
+                           else if dfun (VectorClock__vector a) x <? dfun (VectorClock__vector b) x then (leq, true, false)
+                           else (leq, lt, false)).
+  { intros leq lt x. unfold F, dfun. split; [reflexivity|]. cbn. tie_split; try reflexivity; lia. }
+  pose proof (hb_loop _ _ F HF order false) as H.
+  destruct (fold_left F order (true, false, false)) as [[leq' lt'] b'] eqn:E. destruct H as [H1 H2].
+  assert (Hin : forall k, ~ In k order -> dfun (VectorClock__vector a) k = 0 /\ dfun (VectorClock__vector b) k = 0).
+  { intros k Hk. rewrite Hord in Hk. unfold VectorClock_happened_before_setiter_elems in Hk. rewrite in_app_iff in Hk.
+    split; apply dfun_notin; tauto. }
+  assert (Hdec : forall k, In k order \/ ~ In k order) by (intros k; destruct (in_dec Z.eq_dec k order); tauto).
+  unfold vc_lt. split.
+  - intros Hb. apply andb_true_iff in Hb as [Hl0 Ht]. pose proof (proj1 H1 Hl0) as Hl. split.
+    + intros x. destruct (Hdec x) as [Hx|Hx]; [apply Hl, Hx|destruct (Hin x Hx) as [-> ->]; lia].
+    + pose proof (proj1 (H2 Hl) Ht) as Ht'. destruct Ht' as [Hx0|[x [_ Hx]]]; [discriminate Hx0|exists x; exact Hx].
+  - intros [Hle [k Hk]]. apply andb_true_iff.
+    assert (Hl : forall x, In x order -> dfun (VectorClock__vector a) x <= dfun (VectorClock__vector b) x) by (intros x _; apply Hle).
+    split; [apply (proj2 H1), Hl|]. apply (proj2 (H2 Hl)). right. exists k. split; [|exact Hk].
+    destruct (Hdec k) as [Hx|Hx]; [exact Hx|destruct (Hin k Hx) as [E1 E2]; lia].
 Qed.
